@@ -27,10 +27,17 @@ var c03Faults = []string{"refuse", "hang", "reset", "short", "garbage", "500", "
 type c03Cfg struct {
 	Strategy                           string
 	Breaker, Passive, Limiter, Plugins bool
+	// SplitTimeouts: client-facing timeouts of 30 s next to backend timeouts of 1 s, so that a
+	// backend fault bounded by the wrong one of the two shows (false: every timeout is 1 s)
+	SplitTimeouts bool
 }
 
 func (c c03Cfg) String() string {
-	return fmt.Sprintf("%s breaker=%v passive=%v limiter=%v plugins=%v", c.Strategy, c.Breaker, c.Passive, c.Limiter, c.Plugins)
+	s := fmt.Sprintf("%s breaker=%v passive=%v limiter=%v plugins=%v", c.Strategy, c.Breaker, c.Passive, c.Limiter, c.Plugins)
+	if c.SplitTimeouts {
+		s += " timeouts: server 30s / backend 1s"
+	}
+	return s
 }
 
 type syncBuf struct {
@@ -101,6 +108,9 @@ func c03Run(cfgc c03Cfg, seq []string, concurrent bool, longStall bool) (key, wh
 	}
 	cfg := baseConfig(cfgc.Strategy, fbs[0].URL(), fbs[1].URL())
 	cfg.Server.Timeouts = config.TimeoutConfig{Read: 1, Write: 1, Idle: 1, Handler: 1, Shutdown: 1, BackendDial: 1, BackendRead: 1, BackendIdle: 1}
+	if cfgc.SplitTimeouts {
+		cfg.Server.Timeouts = config.TimeoutConfig{Read: 30, Write: 30, Idle: 30, Handler: 30, Shutdown: 1, BackendDial: 1, BackendRead: 1, BackendIdle: 1}
+	}
 	if cfgc.Breaker {
 		cfg.CircuitBreaker = config.CircuitBreakerConfig{Enabled: true, MaxRequests: 2, IntervalSeconds: 5, TimeoutSeconds: 1, FailureThreshold: 2, SuccessThreshold: 1}
 	}
@@ -235,14 +245,15 @@ func TestVerifC03W(t *testing.T) {
 	if th {
 		for _, st := range []string{"round_robin", "least_connections"} {
 			for m := 0; m < 16; m++ {
-				cfgs = append(cfgs, c03Cfg{st, m&1 != 0, m&2 != 0, m&4 != 0, m&8 != 0})
+				cfgs = append(cfgs, c03Cfg{Strategy: st, Breaker: m&1 != 0, Passive: m&2 != 0, Limiter: m&4 != 0, Plugins: m&8 != 0})
 			}
 		}
 		for _, st := range []string{"weighted_round_robin", "ip_hash", "ip_hash_consistent"} {
-			cfgs = append(cfgs, c03Cfg{st, true, true, true, true}, c03Cfg{st, false, false, false, false})
+			cfgs = append(cfgs, c03Cfg{Strategy: st, Breaker: true, Passive: true, Limiter: true, Plugins: true}, c03Cfg{Strategy: st}, c03Cfg{Strategy: st, Passive: true, SplitTimeouts: true})
 		}
 	} else {
-		cfgs = []c03Cfg{{"round_robin", false, false, false, false}, {"round_robin", true, true, true, true}, {"least_connections", true, false, false, false}, {"round_robin", false, true, false, true}}
+		cfgs = []c03Cfg{{Strategy: "round_robin"}, {Strategy: "round_robin", Breaker: true, Passive: true, Limiter: true, Plugins: true}, {Strategy: "least_connections", Breaker: true},
+			{Strategy: "round_robin", Passive: true, Plugins: true}, {Strategy: "round_robin", SplitTimeouts: true}}
 	}
 	var jobs []job
 	for _, c := range cfgs {
